@@ -6,7 +6,7 @@
 N="$1"; P="$2"; shift 2
 L=/tmp/lab/$N
 git -C /repo worktree remove --force "$L/repo" 2>/dev/null; rm -rf "$L"; mkdir -p "$L/verif"
-git -C /repo worktree add -q --detach "$L/repo" HEAD || exit 2
+git -C /repo worktree add -q --detach "$L/repo" "${LAB_BASE:-HEAD}" || exit 2
 cp /repo/Cargo.lock "$L/repo/" 2>/dev/null
 git -C "$L/repo" apply "$P" || { echo "$N: patch does not apply"; git -C /repo worktree remove --force "$L/repo"; rm -rf "$L"; exit 2; }
 cp -r /verif/check /verif/harness /verif/surface /verif/tools /verif/known_findings.json "$L/verif/"
